@@ -1226,7 +1226,7 @@ EXTRA_CHECKS["C07"] = (lambda tier="quick", seed=0: (_c07_prev(tier, seed) if _c
 
 
 # ---- C10, the spreadsheet form of a saved state (Initialization.to_excel / from_excel: pandas, outside the engine's reach): BOUNDED stand-in, never counted as proved.
-# Random saved states in the order from_result produces them (population by population, 2..6 compartments each; scalars for plain compartments, arrays of 1..12 rows for timed
+# Random saved states in the order from_result produces them (population by population, 1..6 compartments each; scalars for plain compartments, arrays of 1..12 rows for timed
 # ones) are written with the real to_excel and read back with the real from_excel;
 # every value must come back to 16 significant digits, arrays with all their rows, together with year, step and calibration hash.
 def _bounded_saved_state_sheet(tier="quick", seed=0):
@@ -1248,7 +1248,10 @@ def _bounded_saved_state_sheet(tier="quick", seed=0):
         values = {}
         n_comps = rng.randint(2, 6)
         shape = {c: rng.choice([0, 0, 1, 2, 3, 8, 12]) for c in range(n_comps)}
-        for pop in ("adults", "children", "elderly")[: rng.randint(1, 3)]:   # the order Initialization.from_result produces: population by population, each with all its compartments
+        pops = ("adults", "children", "elderly")[: rng.randint(1, 3)]
+        if case % 3 == 2:
+            n_comps = 1   # populations with a single compartment: consecutive keys then name the same compartment (F29: pandas merged those index cells and the reader lost the value)
+        for pop in pops:   # the order Initialization.from_result produces: population by population, each with all its compartments
             for c in range(n_comps):
                 mag = 10 ** rng.uniform(-3, 7)
                 values[("comp_%d" % c, pop)] = (rng.random() * mag) if shape[c] == 0 else np.array([rng.random() * mag for _ in range(shape[c])])
